@@ -13,7 +13,6 @@ import (
 	"errors"
 	"fmt"
 	"sort"
-	"sync"
 
 	"github.com/massnetorg/mass-core/database"
 	"github.com/massnetorg/mass-core/database/storage"
@@ -51,7 +50,7 @@ var ErrInjected = errors.New("sim: injected chain database error")
 type SimNode struct {
 	database.Db // nil: any method outside the wallet's node contract panics
 
-	mu     sync.Mutex
+	mu     hmu
 	all    map[wire.Hash]*BlockRec
 	byOff  map[uint64]*BlockRec
 	best   []*BlockRec // index == height
@@ -75,6 +74,7 @@ type SimNode struct {
 	CountCaller func() bool
 }
 
+//go:norace
 func NewSimNode(genesis *wire.MsgBlock) *SimNode {
 	n := &SimNode{
 		all:   map[wire.Hash]*BlockRec{},
@@ -93,6 +93,8 @@ func NewSimNode(genesis *wire.MsgBlock) *SimNode {
 
 // holderHash returns the script hash the node's address index files an output
 // under, or ok=false when the output is not indexed.
+//
+//go:norace
 func holderHash(pkScript []byte) (h [32]byte, ok bool) {
 	class, pops := txscript.GetScriptInfo(pkScript)
 	switch class {
@@ -115,6 +117,8 @@ func holderHash(pkScript []byte) (h [32]byte, ok bool) {
 
 // NewBlockRec serialises a block and computes its index data. The block is not
 // yet part of any chain.
+//
+//go:norace
 func (n *SimNode) NewBlockRec(parent *BlockRec, msg *wire.MsgBlock) (*BlockRec, error) {
 	raw, err := msg.Bytes(wire.DB)
 	if err != nil {
@@ -172,6 +176,8 @@ func (n *SimNode) NewBlockRec(parent *BlockRec, msg *wire.MsgBlock) (*BlockRec, 
 }
 
 // RegisterTx makes an unconfirmed transaction known for prev-out resolution.
+//
+//go:norace
 func (n *SimNode) RegisterTx(tx *wire.MsgTx) {
 	n.mu.Lock()
 	defer n.mu.Unlock()
@@ -181,12 +187,14 @@ func (n *SimNode) RegisterTx(tx *wire.MsgTx) {
 	}
 }
 
+//go:norace
 func (n *SimNode) LookupTx(h wire.Hash) *wire.MsgTx {
 	n.mu.Lock()
 	defer n.mu.Unlock()
 	return n.allTx[h]
 }
 
+//go:norace
 func (n *SimNode) submit(b *BlockRec) {
 	n.best = append(n.best, b)
 	for i, h := range b.TxHashes {
@@ -198,6 +206,8 @@ func (n *SimNode) submit(b *BlockRec) {
 }
 
 // SubmitBlock appends b to the best chain (one node database commit).
+//
+//go:norace
 func (n *SimNode) Attach(b *BlockRec) {
 	n.mu.Lock()
 	defer n.mu.Unlock()
@@ -209,6 +219,8 @@ func (n *SimNode) Attach(b *BlockRec) {
 }
 
 // DeleteTip removes the best tip (one node database commit).
+//
+//go:norace
 func (n *SimNode) DeleteTip() {
 	n.mu.Lock()
 	defer n.mu.Unlock()
@@ -228,18 +240,21 @@ func (n *SimNode) DeleteTip() {
 	}
 }
 
+//go:norace
 func (n *SimNode) Tip() *BlockRec {
 	n.mu.Lock()
 	defer n.mu.Unlock()
 	return n.best[len(n.best)-1]
 }
 
+//go:norace
 func (n *SimNode) BestChain() []*BlockRec {
 	n.mu.Lock()
 	defer n.mu.Unlock()
 	return append([]*BlockRec(nil), n.best...)
 }
 
+//go:norace
 func (n *SimNode) BlockByHash(h wire.Hash) *BlockRec {
 	n.mu.Lock()
 	defer n.mu.Unlock()
@@ -247,6 +262,8 @@ func (n *SimNode) BlockByHash(h wire.Hash) *BlockRec {
 }
 
 // OnBestChain reports whether the transaction is currently confirmed.
+//
+//go:norace
 func (n *SimNode) OnBestChain(h wire.Hash) (uint64, bool) {
 	n.mu.Lock()
 	defer n.mu.Unlock()
@@ -256,6 +273,7 @@ func (n *SimNode) OnBestChain(h wire.Hash) (uint64, bool) {
 
 // ---- database.Db subset ----
 
+//go:norace
 func (n *SimNode) enter(method string) error {
 	if n.Work != nil {
 		n.Work()
@@ -276,6 +294,7 @@ func (n *SimNode) enter(method string) error {
 	return nil
 }
 
+//go:norace
 func (n *SimNode) NewestSha() (*wire.Hash, uint64, error) {
 	if err := n.enter("NewestSha"); err != nil {
 		return nil, 0, err
@@ -287,6 +306,7 @@ func (n *SimNode) NewestSha() (*wire.Hash, uint64, error) {
 	return &h, t.Height, nil
 }
 
+//go:norace
 func (n *SimNode) FetchBlockShaByHeight(height uint64) (*wire.Hash, error) {
 	if err := n.enter("FetchBlockShaByHeight"); err != nil {
 		return nil, err
@@ -300,6 +320,7 @@ func (n *SimNode) FetchBlockShaByHeight(height uint64) (*wire.Hash, error) {
 	return &h, nil
 }
 
+//go:norace
 func (n *SimNode) FetchBlockLocByHeight(height uint64) (*database.BlockLoc, error) {
 	if err := n.enter("FetchBlockLocByHeight"); err != nil {
 		return nil, err
@@ -313,6 +334,7 @@ func (n *SimNode) FetchBlockLocByHeight(height uint64) (*database.BlockLoc, erro
 	return &database.BlockLoc{Height: height, Hash: b.Hash, File: 0, Offset: b.Offset, Length: uint64(len(b.Raw))}, nil
 }
 
+//go:norace
 func (n *SimNode) onBest(sha *wire.Hash) *BlockRec {
 	if sha == nil {
 		return nil
@@ -324,6 +346,7 @@ func (n *SimNode) onBest(sha *wire.Hash) *BlockRec {
 	return b
 }
 
+//go:norace
 func (n *SimNode) FetchBlockBySha(sha *wire.Hash) (*massutil.Block, error) {
 	if err := n.enter("FetchBlockBySha"); err != nil {
 		return nil, err
@@ -342,6 +365,7 @@ func (n *SimNode) FetchBlockBySha(sha *wire.Hash) (*massutil.Block, error) {
 	return blk, nil
 }
 
+//go:norace
 func (n *SimNode) FetchBlockHeaderBySha(sha *wire.Hash) (*wire.BlockHeader, error) {
 	if err := n.enter("FetchBlockHeaderBySha"); err != nil {
 		return nil, err
@@ -356,6 +380,7 @@ func (n *SimNode) FetchBlockHeaderBySha(sha *wire.Hash) (*wire.BlockHeader, erro
 	return &hdr, nil
 }
 
+//go:norace
 func cutTx(b *BlockRec, off, l int) (*wire.MsgTx, error) {
 	if off < 0 || l <= 0 || off+l > len(b.Raw) {
 		return nil, fmt.Errorf("sim: tx location out of block: off=%d len=%d block=%d", off, l, len(b.Raw))
@@ -367,6 +392,7 @@ func cutTx(b *BlockRec, off, l int) (*wire.MsgTx, error) {
 	return &tx, nil
 }
 
+//go:norace
 func (n *SimNode) FetchTxByLoc(height uint64, off, l int) (*wire.MsgTx, error) {
 	if err := n.enter("FetchTxByLoc"); err != nil {
 		return nil, err
@@ -379,6 +405,7 @@ func (n *SimNode) FetchTxByLoc(height uint64, off, l int) (*wire.MsgTx, error) {
 	return cutTx(n.best[height], off, l)
 }
 
+//go:norace
 func (n *SimNode) FetchTxByFileLoc(loc *database.BlockLoc, txLoc *wire.TxLoc) (*wire.MsgTx, error) {
 	if err := n.enter("FetchTxByFileLoc"); err != nil {
 		return nil, err
@@ -392,6 +419,7 @@ func (n *SimNode) FetchTxByFileLoc(loc *database.BlockLoc, txLoc *wire.TxLoc) (*
 	return cutTx(b, txLoc.TxStart, txLoc.TxLen)
 }
 
+//go:norace
 func (n *SimNode) FetchTxBySha(sha *wire.Hash) ([]*database.TxReply, error) {
 	if err := n.enter("FetchTxBySha"); err != nil {
 		return []*database.TxReply{}, err
@@ -413,6 +441,7 @@ func (n *SimNode) FetchTxBySha(sha *wire.Hash) ([]*database.TxReply, error) {
 	return []*database.TxReply{{Sha: &h, Tx: tx, BlkSha: &bh, Height: b.Height, TxSpent: make([]bool, len(tx.TxOut))}}, nil
 }
 
+//go:norace
 func (n *SimNode) FetchScriptHashRelatedTx(hashes [][]byte, start, stop uint64) (map[uint64][]*wire.TxLoc, error) {
 	if err := n.enter("FetchScriptHashRelatedTx"); err != nil {
 		return nil, err
@@ -450,6 +479,7 @@ func (n *SimNode) FetchScriptHashRelatedTx(hashes [][]byte, start, stop uint64) 
 	return res, nil
 }
 
+//go:norace
 func (n *SimNode) CheckScriptHashUsed(scriptHash []byte) (bool, error) {
 	if err := n.enter("CheckScriptHashUsed"); err != nil {
 		return false, err
@@ -465,11 +495,14 @@ func (n *SimNode) CheckScriptHashUsed(scriptHash []byte) (bool, error) {
 }
 
 // equalBytes is used by the conformance self-test.
+//
+//go:norace
 func equalBytes(a, b []byte) bool { return bytes.Equal(a, b) }
 
 // ---- queries only the API layer makes (through the chain object); the
 // simulated node keeps no staking ranks or old-style binding index ----
 
+//go:norace
 func (n *SimNode) FetchUnexpiredStakingRank(height uint64, onlyOnList bool) ([]database.Rank, error) {
 	if err := n.enter("FetchUnexpiredStakingRank"); err != nil {
 		return nil, err
@@ -477,6 +510,7 @@ func (n *SimNode) FetchUnexpiredStakingRank(height uint64, onlyOnList bool) ([]d
 	return nil, nil
 }
 
+//go:norace
 func (n *SimNode) FetchStakingRank(height uint64, onlyOnList bool) ([]database.Rank, error) {
 	if err := n.enter("FetchStakingRank"); err != nil {
 		return nil, err
@@ -484,6 +518,7 @@ func (n *SimNode) FetchStakingRank(height uint64, onlyOnList bool) ([]database.R
 	return nil, nil
 }
 
+//go:norace
 func (n *SimNode) FetchOldBinding(scriptHash []byte) ([]*database.BindingTxReply, error) {
 	if err := n.enter("FetchOldBinding"); err != nil {
 		return nil, err
